@@ -285,6 +285,7 @@ static inline int K_rand(void) { int r = nondet_int(); __CPROVER_assume(0 <= r &
 #define RP_COUNT_T(m, g) 1
 #define RP_COUNT_V(m, j, g) 0
 #define RP_COUNT_F(i, g) 1
+#define RP_COUNT_P(p, g) 1
 #endif
 int g_val; /* ghost: any subset number */
 #define CONTRACT_K_randomly_permute_subset_order                                                                     \
@@ -293,6 +294,7 @@ int g_val; /* ghost: any subset number */
   __CPROVER_assigns(*out)                                                                                              \
   __CPROVER_ensures(out->n == self->num_subsets)                                                                       \
   __CPROVER_ensures(!(0 <= g_a && g_a < out->n) || (0 <= out->e[g_a] && out->e[g_a] < self->num_subsets))              \
+  __CPROVER_ensures(!(0 <= g_b && g_b < out->n) || (0 <= out->e[g_b] && out->e[g_b] < self->num_subsets))              \
   /* every subset number occurs exactly once among the num_subsets elements */                                      \
   __CPROVER_ensures(!(0 <= g_val && g_val < self->num_subsets) || RP_COUNT_F(RP_N, g_val) == 1)
 /* loop 0: temp_array[k] = k */
@@ -306,6 +308,7 @@ int g_val; /* ghost: any subset number */
   __CPROVER_loop_invariant(0 <= i && i <= RP_N && out->n == RP_N)                                                      \
   __CPROVER_loop_invariant(RP_RANGE(RP_N - i))                                                                         \
   __CPROVER_loop_invariant(!(0 <= g_a && g_a < i) || (0 <= out->e[g_a] && out->e[g_a] < RP_N))                         \
+  __CPROVER_loop_invariant(!(0 <= g_b && g_b < i) || (0 <= out->e[g_b] && out->e[g_b] < RP_N))                         \
   __CPROVER_loop_invariant(!(0 <= g_val && g_val < RP_N) || RP_COUNT_T(RP_N - i, g_val) + RP_COUNT_F(i, g_val) == 1)   \
   __CPROVER_decreases(RP_N - i)
 /* loop 2: closing the gap at index; V = temp_array without slot j = the not yet drawn elements, unchanged by the shifting */
@@ -317,13 +320,27 @@ int g_val; /* ghost: any subset number */
   __CPROVER_decreases(RP_N - (i + 1) - j)
 #define IR_VALID(s) (C06_S_OK((s)->num_subsets) && (s)->num_subsets >= 1 && (s)->num_subsets <= MAXSUB && (s)->subiteration_num >= 1 && (s)->subiteration_num < (1 << 30) \
                      && (s)->start_subset_num >= 0 && (s)->start_subset_num < (s)->num_subsets)
+int g_regen; /* ghost: how often the random order was regenerated in this call (incremented by the extraction at the call site) */
+#define GB_CLAMP (g_b < 0 ? 0 : (g_b >= MAXSUB ? MAXSUB - 1 : g_b))
+#define ORDER_IS_PERMUTATION(s) (!(0 <= g_val && g_val < (s)->num_subsets) || RP_COUNT_P(&(s)->_current_subset_array, g_val) == 1)
 #define CONTRACT_K_get_subset_num                                                                                    \
-  __CPROVER_requires(__CPROVER_is_fresh(self, sizeof(*self)) && IR_VALID(self))                                        \
+  __CPROVER_requires(__CPROVER_is_fresh(self, sizeof(*self)) && IR_VALID(self) && g_regen == 0)                        \
   /* _current_subset_array is either still empty (never generated) or a permutation from an earlier call */          \
   __CPROVER_requires(self->_current_subset_array.n == 0 || self->_current_subset_array.n == self->num_subsets)         \
   __CPROVER_requires((0 <= g_a && g_a < self->_current_subset_array.n) ==> (0 <= self->_current_subset_array.e[g_a] && self->_current_subset_array.e[g_a] < self->num_subsets)) \
+  __CPROVER_requires((0 <= g_b && g_b < self->_current_subset_array.n) ==> (0 <= self->_current_subset_array.e[GB_CLAMP] && self->_current_subset_array.e[GB_CLAMP] < self->num_subsets)) \
+  __CPROVER_requires(self->_current_subset_array.n == self->num_subsets ==> ORDER_IS_PERMUTATION(self))                \
   __CPROVER_requires(g_a == (self->subiteration_num - 1) % self->num_subsets)                                          \
-  __CPROVER_assigns(self->_current_subset_array)                                                                       \
+  __CPROVER_assigns(self->_current_subset_array, g_regen)                                                              \
   __CPROVER_ensures(0 <= __CPROVER_return_value && __CPROVER_return_value < self->num_subsets)                         \
-  __CPROVER_ensures(!self->randomise_subset_order ==> __CPROVER_return_value == (self->subiteration_num - 1 + self->start_subset_num) % self->num_subsets)
+  __CPROVER_ensures(!self->randomise_subset_order ==> __CPROVER_return_value == (self->subiteration_num - 1 + self->start_subset_num) % self->num_subsets) \
+  /* randomised order: a new permutation exactly at the first sub-iteration of a full iteration (or when there is none yet), otherwise the stored one is kept; \
+     sub-iteration k of the full iteration uses entry k of it */                                                       \
+  __CPROVER_ensures(self->randomise_subset_order ==> g_regen == (((self->subiteration_num - 1) % self->num_subsets == 0 || __CPROVER_old(self->_current_subset_array.n) != self->num_subsets) ? 1 : 0)) \
+  __CPROVER_ensures(!self->randomise_subset_order ==> g_regen == 0)                                                    \
+  __CPROVER_ensures(g_regen == 0 ==> (self->_current_subset_array.n == __CPROVER_old(self->_current_subset_array.n)    \
+                                      && self->_current_subset_array.e[GB_CLAMP] == __CPROVER_old(self->_current_subset_array.e[GB_CLAMP]))) \
+  __CPROVER_ensures((self->randomise_subset_order && 0 <= g_b && g_b < self->num_subsets) ==> (0 <= self->_current_subset_array.e[GB_CLAMP] && self->_current_subset_array.e[GB_CLAMP] < self->num_subsets)) \
+  __CPROVER_ensures(self->randomise_subset_order ==> (self->_current_subset_array.n == self->num_subsets && ORDER_IS_PERMUTATION(self) \
+                                                      && __CPROVER_return_value == self->_current_subset_array.e[(self->subiteration_num - 1) % self->num_subsets]))
 #endif
